@@ -1,6 +1,7 @@
 package main
 
 import (
+	"encoding/json"
 	"fmt"
 	"strconv"
 	"sync"
@@ -45,6 +46,28 @@ func aliasRun(c *Ctx, key string, calls []aliasCall) {
 			}
 			c.Fail(key, "", "%s: the returned bytes changed from %q to %q after later calls", calls[j].name, k.copy, string(k.live))
 			return
+		}
+	}
+	// The returned slices are the caller's: it may overwrite them in place and append within their capacity. Every result kept so far
+	// is scribbled over (its whole capacity), then every call is made again: the new results must be what the first ones were. A
+	// library that hands out its own copy (a per-value cache, a table of pre-rendered texts) passes everything above and fails here.
+	for _, k := range ks {
+		b := k.live[:cap(k.live)]
+		for i := range b {
+			b[i] ^= 0xff
+		}
+	}
+	for round := 0; round < 2; round++ {
+		for i, cl := range calls {
+			b := cl.f()
+			c.Check("")
+			if string(b) != ks[i].copy {
+				c.Fail(key, "", "%s: after the caller overwrote the slices returned by earlier calls, the call returns %q instead of %q", cl.name, string(b), ks[i].copy)
+				return
+			}
+			for j := range b { // and scribble again: the second round sees what the first one left behind
+				b[j] = '#'
+			}
 		}
 	}
 	c.NT(int64(len(calls)))
@@ -190,7 +213,12 @@ func init() {
 		for _, d := range []date.Date{date.New(2024, 2, 29), date.New(1, 1, 1), date.New(9999, 12, 31), date.New(0, 6, 15), date.New(123456, 7, 8)} {
 			d := d
 			calls = append(calls, aliasCall{"Date.MarshalText " + d.String(), func() []byte { b, _ := d.MarshalText(); return b }},
-				aliasCall{"date.DefaultFormatter(nil) " + d.String(), func() []byte { b, _ := date.DefaultFormatter(nil, d, date.FormatBasic); return b }})
+				aliasCall{"date.DefaultFormatter(nil) " + d.String(), func() []byte { b, _ := date.DefaultFormatter(nil, d, date.FormatBasic); return b }},
+				aliasCall{"date.DefaultFormatter(nil, extended) " + d.String(), func() []byte { b, _ := date.DefaultFormatter(nil, d, 0); return b }},
+				aliasCall{"date.DefaultFormatter(empty, extended) " + d.String(), func() []byte { b, _ := date.DefaultFormatter([]byte{}, d, 0); return b }},
+				aliasCall{"Date.String " + d.String(), func() []byte { return []byte(d.String()) }},
+				aliasCall{"json.Marshal(Date) " + d.String(), func() []byte { b, _ := json.Marshal(d); return b }},
+				aliasCall{"Sprintf(%v %b, Date) " + d.String(), func() []byte { return []byte(fmt.Sprintf("%v %b", d, d)) }})
 		}
 		aliasRun(c, "C01.alias", calls)
 	})
@@ -198,7 +226,8 @@ func init() {
 		var calls []aliasCall
 		for _, d := range []date.Date{date.New(2024, 2, 29), date.New(1, 1, 1), date.New(-999999999, 12, 31), date.New(999999999, 1, 1)} {
 			d := d
-			calls = append(calls, aliasCall{"Date.MarshalBinary " + d.String(), func() []byte { b, _ := d.MarshalBinary(); return b }})
+			calls = append(calls, aliasCall{"Date.MarshalBinary " + d.String(), func() []byte { b, _ := d.MarshalBinary(); return b }},
+				aliasCall{"Date.MarshalBinary (pointer) " + d.String(), func() []byte { b, _ := (&d).MarshalBinary(); return b }})
 		}
 		aliasRun(c, "C11.alias", calls)
 	})
@@ -210,7 +239,9 @@ func init() {
 				fl := fl
 				calls = append(calls, aliasCall{fmt.Sprintf("roman.DefaultFormatter(nil, %d, %d)", uint64(n), int(fl)), func() []byte { b, _ := roman.DefaultFormatter(nil, n, fl); return b }})
 			}
-			calls = append(calls, aliasCall{fmt.Sprintf("Number(%d).MarshalText", uint64(n)), func() []byte { b, _ := n.MarshalText(); return b }})
+			calls = append(calls, aliasCall{fmt.Sprintf("Number(%d).MarshalText", uint64(n)), func() []byte { b, _ := n.MarshalText(); return b }},
+				aliasCall{fmt.Sprintf("Number(%d).String", uint64(n)), func() []byte { return []byte(n.String()) }},
+				aliasCall{fmt.Sprintf("json.Marshal(Number(%d))", uint64(n)), func() []byte { b, _ := json.Marshal(n); return b }})
 		}
 		aliasRun(c, "C02.alias", calls)
 	})
@@ -219,7 +250,10 @@ func init() {
 		for _, v := range []sem.Ver{sem.New(1, 2, 3), sem.New(0, 0, 0, "alpha.1"), sem.New(1<<64-1, 0, 9, "rc-1", "b.77"), sem.New(10, 20, 30, "", "x")} {
 			v := v
 			calls = append(calls, aliasCall{"Ver.MarshalText " + v.String(), func() []byte { b, _ := v.MarshalText(); return b }},
-				aliasCall{"sem.DefaultFormatter(nil) " + v.String(), func() []byte { b, _ := sem.DefaultFormatter(nil, v, sem.FormatTag); return b }})
+				aliasCall{"sem.DefaultFormatter(nil) " + v.String(), func() []byte { b, _ := sem.DefaultFormatter(nil, v, sem.FormatTag); return b }},
+				aliasCall{"sem.DefaultFormatter(nil, 0) " + v.String(), func() []byte { b, _ := sem.DefaultFormatter(nil, v, 0); return b }},
+				aliasCall{"Ver.String " + v.String(), func() []byte { return []byte(v.String()) }},
+				aliasCall{"json.Marshal(Ver) " + v.String(), func() []byte { b, _ := json.Marshal(v); return b }})
 		}
 		aliasRun(c, "C03.alias", calls)
 	})
@@ -228,7 +262,10 @@ func init() {
 		for _, id := range []uu.ID{{}, {Higher: 1<<64 - 1, Lower: 1<<64 - 1}, {Higher: 0x0123456789abcdef, Lower: 0xfedcba9876543210}} {
 			id := id
 			calls = append(calls, aliasCall{"ID.MarshalText " + id.String(), func() []byte { b, _ := id.MarshalText(); return b }},
-				aliasCall{"uu.DefaultFormatter(nil, URN) " + id.String(), func() []byte { b, _ := uu.DefaultFormatter(nil, id, uu.FormatURN); return b }})
+				aliasCall{"uu.DefaultFormatter(nil, URN) " + id.String(), func() []byte { b, _ := uu.DefaultFormatter(nil, id, uu.FormatURN); return b }},
+				aliasCall{"uu.DefaultFormatter(nil, 0) " + id.String(), func() []byte { b, _ := uu.DefaultFormatter(nil, id, 0); return b }},
+				aliasCall{"ID.String " + id.String(), func() []byte { return []byte(id.String()) }},
+				aliasCall{"json.Marshal(ID) " + id.String(), func() []byte { b, _ := json.Marshal(id); return b }})
 		}
 		aliasRun(c, "C05.alias", calls)
 	})
@@ -279,6 +316,56 @@ func init() {
 				hi, lo = 1<<64-1, 1<<64-1
 			}
 			c.Op(fmt.Sprintf("uu.paths %d %d", hi, lo))
+		}
+	})
+	// ---- fmt verbs beyond the documented ones: ID.Format / Ver.Format choose the layout by the verb alone (uu: %u URN, every other verb
+	// plain; sem: %t tag, every other verb plain) and write the text as it is — judged for every ASCII-letter verb fmt passes on to a
+	// Formatter (it answers %T and %p itself and refuses %w outside Errorf), with flags, width and precision
+	verbForms := func(f func(format string, verb byte)) {
+		for verb := byte('A'); verb <= 'z'; verb++ {
+			if (verb > 'Z' && verb < 'a') || verb == 'T' || verb == 'p' || verb == 'w' {
+				continue
+			}
+			for _, fl := range []string{"", "+", "#", "-", "0", " ", "10", "-12", "060", ".3", "+#050.5"} {
+				f("%"+fl+string(verb), verb)
+			}
+		}
+	}
+	wrap("C05", func(c *Ctx) {
+		for _, id := range []uu.ID{{}, {Higher: 0x0123456789ab4def, Lower: 0x8123456789abcdef}, {Higher: 1<<64 - 1, Lower: 1<<64 - 1}} {
+			hi, lo := id.Higher, id.Lower
+			plain := fmt.Sprintf("%08x-%04x-%04x-%04x-%012x", hi>>32, (hi>>16)&0xffff, hi&0xffff, lo>>48, lo&0xffffffffffff)
+			verbForms(func(format string, verb byte) {
+				want := plain
+				if verb == 'u' {
+					want = "urn:uuid:" + plain
+				}
+				c.Check("verb " + format + plain)
+				if got := fmt.Sprintf(format, id); got != want {
+					c.Fail("C05.verbs", "uu.paths "+fmt.Sprint(hi, " ", lo), "Sprintf(%q, id) = %q, want %q", format, got, want)
+				}
+			})
+		}
+	})
+	wrap("C03", func(c *Ctx) {
+		for _, v := range []sem.Ver{{}, {Major: 1, Minor: 2, Patch: 3, PreRelease: "rc.1", Build: "b7"}, {Major: 1<<64 - 1, Minor: 0, Patch: 10}} {
+			plain := strconv.FormatUint(v.Major, 10) + "." + strconv.FormatUint(v.Minor, 10) + "." + strconv.FormatUint(v.Patch, 10)
+			if v.PreRelease != "" {
+				plain += "-" + v.PreRelease
+			}
+			if v.Build != "" {
+				plain += "+" + v.Build
+			}
+			verbForms(func(format string, verb byte) {
+				want := plain
+				if verb == 't' {
+					want = "v" + plain
+				}
+				c.Check("verb " + format + plain)
+				if got := fmt.Sprintf(format, v); got != want {
+					c.Fail("C03.verbs", "", "Sprintf(%q, %s) = %q, want %q", format, plain, got, want)
+				}
+			})
 		}
 	})
 	// ---- concurrent use (see concRun)
